@@ -24,13 +24,18 @@ current core.py on every run, `e.X` = cached entry of key `X`):
      the Hamiltonian constraint as hypotheses, `dtKtrace = ∂_t(γ^ij K_ij)`;
      `Ã_ijÃ^ij = K_ijK^ij − K²/3`.
 
-What NO theorem here covers (continuum theory, trusted; watched by the sympy
-oracle of tools/props/C06.py on exact solutions at two resolutions):
- * "the constraints converge to zero on every exact solution" = contracted
-   Gauss–Codazzi identities + Einstein's equations;
- * the derivation of the BSSNOK right-hand sides of ∂_tÃ_ij and ∂_tΓ̃^i from the
-   ADM evolution equation for K_ij and the constraints (for these two keys only
-   the term-by-term match T1 is proven), and the ADM equations themselves;
+Extensions in separate modules (same namespace `AurelVerif.C06`):
+ Props/C06b.lean  (Layer B)  `dtAdown3_bssnok = ∂_t(ψ⁻⁴(K_ij − γ_ijK/3))` from the ADM evolution equation of K_ij, both
+                  branches, no constraint needed;
+ Props/C06c.lean  Einstein's equations ⟹ `Hamiltonian = 0`, `Momentumup3 = 0`, MODULO the (uncontracted) Gauss and
+                  Codazzi equations: `Hamiltonian = 2(G+Λg−κT)_μν n^μn^ν`, `Momentumup3^i = −γ^{iμ}(G+Λg−κT)_μν n^ν`;
+ Props/C06d.lean  (Layer B)  `dts_Gamma_bssnok = ∂_tΓ̃^i`, `Γ̃^i = −∂_jγ̃^ij`, with commuting derivatives and the momentum
+                  constraint (conformal form [A] (2.8.24), derived from `Momentumup3 = 0`).
+
+What NO theorem covers (trusted; watched by the sympy oracle of tools/props/C06.py on exact solutions at two
+resolutions):
+ * that the Riemann tensor of the 4-metric satisfies the Gauss and Codazzi equations (hypotheses of Props/C06c), that
+   `R_ij = R̃_ij + R^φ_ij`, and the ADM evolution equation of K_ij itself (hypotheses of the Layer-B theorems);
  * convergence order of the composed finite-difference expressions.
 -/
 import AurelVerif.Props.C09
